@@ -289,6 +289,26 @@ def corpus(kind, s, tier, rnd):
                     out.append(('%s|%s' % (a, b), [dict(vs[a]), dict(vs[b])]))
         out.append(('put_null|put_null_b|put_gen0', [dict(new_variants[k]) for k in ('put_null', 'put_null_b', 'put_gen0')]))
         out.append(('put_cur|put_cur_b|put_cur_empty', [dict(old_variants[k]) for k in ('put_cur', 'put_cur_b', 'put_cur_empty')]))
+    elif kind == 'C19':
+        # creations of custom names racing: identifiers stay unique, an existing name is never duplicated
+        reqs19 = {
+            'post_rc2': dict(op='rc_post', v=39, name='CUSTOM_RC2'),
+            'post_rc3': dict(op='rc_post', v=39, name='CUSTOM_RC3'),
+            'put_rc2': dict(op='rc_put', v=39, name='CUSTOM_RC2', newname=''),
+            'put_rc4': dict(op='rc_put', v=39, name='CUSTOM_RC4', newname=''),
+            'rename_rc1_rc2': dict(op='rc_put', v=6, name='CUSTOM_RC1', newname='CUSTOM_RC2'),
+            'del_rc1': dict(op='rc_del', v=39, name='CUSTOM_RC1'),
+            'trait_t2': dict(op='trait_put', v=39, name='CUSTOM_T2'),
+            'trait_t2_again': dict(op='trait_put', v=39, name='CUSTOM_T2'),
+            'trait_t3': dict(op='trait_put', v=39, name='CUSTOM_T3'),
+        }
+        ks = sorted(reqs19)
+        for i, a in enumerate(ks):
+            for b in ks[i:]:
+                if (a.startswith('trait')) != (b.startswith('trait')):
+                    continue
+                out.append(('%s|%s' % (a, b), [dict(reqs19[a]), dict(reqs19[b])]))
+        out.append(('post_rc2|put_rc2|post_rc3', [dict(reqs19[k]) for k in ('post_rc2', 'put_rc2', 'post_rc3')]))
     elif kind == 'MIX':
         # Requests below 1.28 carry no consumer generation and are outside C06 / C07 (the
         # documentation warns against mixing them with 1.28+ writes); what a *rejected* one may
